@@ -124,8 +124,8 @@ type c06Mode struct {
 }
 
 func (m c06Mode) String() string {
-	if m.Name == "resend" {
-		return "resend"
+	if m.Name == "resend" || m.Name == "directed" || m.Name == "directed-same" {
+		return m.Name
 	}
 	if m.Name != "reencode" {
 		return "fork"
@@ -168,6 +168,7 @@ type c06Out struct {
 	sys         *sysCase // the whole session prepared for the system model (sys.run), compared by c06Report
 	sysE        int      // index of the equivocator
 	sysKey      string
+	dsum        string // directed modes: what the honest parties ended with (aggregated into one note)
 }
 
 func (c *ctx) c06Report(o *c06Out) {
@@ -182,8 +183,14 @@ func (c *ctx) c06Report(o *c06Out) {
 	for _, v := range o.viols {
 		c.res.Violate("property", v.key, v.what, v.rp)
 	}
+	if o.dsum != "" {
+		c06DirectedSum[o.dsum]++
+	}
 	c.c06System(o)
 }
+
+// c06DirectedSum: outcome of the honest parties in the directed runs -> number of runs (one note at the end)
+var c06DirectedSum = map[string]int{}
 
 // c06Sys: counters of the system-level comparison for the run's notes
 var c06Sys = sysStats{skips: map[string]int{}}
@@ -293,14 +300,18 @@ func c06Exec(j c06Job) *c06Out {
 	var s *Sim
 	var re *reencState
 	var rs *resendState
-	if mode.Name == "reencode" {
+	var ds *directedState
+	if mode.Name == "directed" || mode.Name == "directed-same" {
+		s, ds = buildDirected(sp, seed, E, g1, k, j.bcast, mode.Name == "directed-same", det)
+	} else if mode.Name == "reencode" {
 		s, re = buildReencoded(sp, seed, E, g1, k, mode.Variant, det)
 	} else if mode.Name == "resend" {
 		s, rs = buildResend(sp, seed, E, g1, k, j.bcast, det)
 	} else {
 		s, _ = buildTwoFaced(sp, seed, E, g1, k, det)
 	}
-	if mode.Name != "reencode" && k == 2 {
+	twoInst := mode.Name != "reencode" && mode.Name != "directed-same"
+	if twoInst && k == 2 {
 		// first message round: instance 2 must differ from the start -> rebuild it with a forked stream
 		forkIfDue(s, det, E, 2)
 	}
@@ -314,7 +325,7 @@ func c06Exec(j c06Job) *c06Out {
 		pol = func(*Sim) (int, bool) { return 0, false }
 	}
 	for steps := 0; len(s.Flight) > 0 && steps < 20000; steps++ {
-		if mode.Name != "reencode" {
+		if twoInst {
 			forkIfDue(s, det, E, k)
 		}
 		i, keep := pol(s)
@@ -323,6 +334,9 @@ func c06Exec(j c06Job) *c06Out {
 		}
 		if rs != nil {
 			i, keep = rs.pick(s, i), false
+		}
+		if ds != nil {
+			i, keep = ds.pick(s, i), false
 		}
 		var e *Env
 		if keep {
@@ -336,19 +350,30 @@ func c06Exec(j c06Job) *c06Out {
 		if rs != nil {
 			rs.patch(s, e)
 		}
+		if ds != nil {
+			ds.patch(s, e)
+		}
 		s.Deliver(e)
 		if rs != nil {
 			rs.delivered(s, e)
 		}
+		if ds != nil {
+			ds.delivered(s, e)
+		}
 	}
 	// the whole session for the system model (compared by c06Report)
 	o.sys, o.sysE = s.SysCase(j.sh, true), s.idx(E)
+	if ds != nil && ds.toSys > 0 {
+		// honest parties' messages to the equivocator's own handler were altered (its own digest): the equivocator is not a party of
+		// the system model then (there every message is sent by a party or is an injection naming the equivocator); direct oracles only
+		o.sys = nil
+	}
 	o.sysKey = fmt.Sprintf("%s/round%d/%s", sp.Name, k, mode.Name)
 	if mode.Name == "" {
 		o.sysKey = fmt.Sprintf("%s/round%d/fork", sp.Name, k)
 	}
 	for i, id := range s.IDs {
-		if r, _ := resultOf(s.Nodes[id]); r != nil {
+		if r, _ := resultOf(s.Nodes[id]); r != nil && o.sys != nil {
 			o.sys.Results[i] = c06PublicFP(r)
 		}
 	}
@@ -373,6 +398,9 @@ func c06Exec(j c06Job) *c06Out {
 	if rs != nil {
 		rp.Mode = "resend"
 	}
+	if ds != nil {
+		rp.Mode = mode.Name
+	}
 	key := fmt.Sprintf("C06/%s/round%d", sp.Name, k)
 	class := fmt.Sprintf("%s/round%d", sp.Name, k)
 	// did the two groups really receive different, individually valid round-k broadcasts?
@@ -393,6 +421,16 @@ func c06Exec(j c06Job) *c06Out {
 					equivocated = false
 					o.notes = append(o.notes, fmt.Sprintf("C06 %s round %d %s: %s rejected the re-encoded broadcast of %s (%s)", sp.Name, k, mode, id, E, gst.ErrText))
 				}
+			}
+		}
+	} else if ds != nil && ds.same {
+		// control: one instance, identical payloads, every copy addressed to its recipient
+		key += "/directed-same"
+		class += "/directed-same"
+		equivocated = len(G1)+len(G2) > 0
+		for _, id := range append(append([]string{}, G1...), G2...) {
+			if ds.got[party.ID(id)] == 0 {
+				equivocated = false // the directed copy is not what this party holds as E's round-k broadcast
 			}
 		}
 	} else {
@@ -424,6 +462,15 @@ func c06Exec(j c06Job) *c06Out {
 				equivocated = false
 			}
 		}
+		if ds != nil {
+			key += "/directed"
+			class += "/directed"
+			for _, id := range append(append([]string{}, G1...), G2...) {
+				if ds.got[party.ID(id)] == 0 {
+					equivocated = false
+				}
+			}
+		}
 		if rs != nil {
 			key += "/resend"
 			class += "/resend"
@@ -438,6 +485,20 @@ func c06Exec(j c06Job) *c06Out {
 				o.notes = append(o.notes, fmt.Sprintf("C06 %s round %d resend (%s, %s, group 2 %v): version 2 did not reach every member of group 2 in round %d after version 1 (v1 %v, v2 %v, open %v)", sp.Name, k, E, j.pol, G2, k, rs.v1At, rs.v2At, rs.open))
 			}
 		}
+	}
+	if ds != nil {
+		errs := map[string]bool{}
+		for _, id := range append(append([]string{}, G1...), G2...) {
+			if st := s.Nodes[party.ID(id)].MH.VerifState(); st.ErrText != "" {
+				errs[fmt.Sprintf("%q culprits=%d", st.ErrText, len(st.Culprits))] = true
+			}
+		}
+		var el []string
+		for e := range errs {
+			el = append(el, e)
+		}
+		sort.Strings(el)
+		o.dsum = fmt.Sprintf("%s, copies held by every honest party=%v: %d of %d honest parties completed; their errors: %s", mode.Name, equivocated, len(fin), len(G1)+len(G2), strings.Join(el, "; "))
 	}
 	o.class = fmt.Sprintf("%s/equivocated=%v", class, equivocated)
 	o.fp = fmt.Sprintf("%s/%s/%d/%v/%s/%d/%s", sp.Name, E, k, G1, j.pol, seed, mode)
@@ -454,6 +515,15 @@ func c06Exec(j c06Job) *c06Out {
 	for _, a := range G1 {
 		for _, b := range G2 {
 			if finished[party.ID(a)] && finished[party.ID(b)] {
+				if ds != nil && ds.same {
+					// identical payloads: both may complete, with the same (public) result
+					ra, _ := resultOf(s.Nodes[party.ID(a)])
+					rb, _ := resultOf(s.Nodes[party.ID(b)])
+					if fa, fb := c06PublicFP(ra), c06PublicFP(rb); fa != fb {
+						violate(key+"/split", fmt.Sprintf("%s sent its round-%d broadcast as identical copies addressed to each recipient; honest %s and %s both completed, with different results", E, k, a, b))
+					}
+					continue
+				}
 				if rs != nil {
 					// resend: group 2 holds version 1 as well; a split = both complete, but not with the same (public) result
 					ra, _ := resultOf(s.Nodes[party.ID(a)])
@@ -470,6 +540,10 @@ func c06Exec(j c06Job) *c06Out {
 	// oracle 2: completers hold identical views of every non-final broadcast round
 	var views []map[int]map[party.ID][]byte
 	for _, id := range fin {
+		if ds != nil {
+			views = append(views, viewsOfNoTo(s.Nodes[party.ID(id)]))
+			continue
+		}
 		views = append(views, viewsOf(s.Nodes[party.ID(id)]))
 	}
 	for i := 1; i < len(views); i++ {
@@ -575,7 +649,17 @@ func runC06(c *ctx) {
 		"(plain, and adaptive: the equivocator echoes the recipient's own view digest); (resend) version 1 of the round-k broadcast to everybody, then version 2 to group 2 while it is in round k, then the second instance's " +
 		"messages with the digest each recipient expects (no cross-group completers with different results); every equivocator and every 2-partition of the honest parties (n=3,4) for FROST keygen/sign with FIFO/LIFO/random schedules, " +
 		"one equivocator/partition per round for CMP keygen, sign, presign (refresh, all positions and fork mode on every round in the thorough tier); non-trivial = the two groups really received different, individually valid round-k broadcasts"
-	defer func() { c06Sys.note(c, "C06 runs (fork / reencode / resend)") }()
+	defer func() { c06Sys.note(c, "C06 runs (fork / reencode / resend / directed)") }()
+	defer func() {
+		var ks []string
+		for k := range c06DirectedSum {
+			ks = append(ks, k)
+		}
+		sort.Strings(ks)
+		for _, k := range ks {
+			c.res.Note("directed broadcast copies (Broadcast=true, To=recipient): %d runs: %s", c06DirectedSum[k], k)
+		}
+	}()
 	var rpl *c06Replay
 	if c.replay != "" {
 		rpl = &c06Replay{}
@@ -607,8 +691,8 @@ func runC06(c *ctx) {
 			mode := c06Mode{Name: "fork"}
 			if rpl.Mode == "reencode" {
 				mode = c06Mode{"reencode", rpl.Variant, rpl.Adaptive}
-			} else if rpl.Mode == "resend" {
-				mode = c06Mode{Name: "resend"}
+			} else if rpl.Mode == "resend" || rpl.Mode == "directed" || rpl.Mode == "directed-same" {
+				mode = c06Mode{Name: rpl.Mode}
 			}
 			return []c06Job{{mk(), rpl.Seed, party.ID(rpl.Cheater), g1, rpl.Round, last, sh.Bcast, rpl.Policy, mode, isCMP, sh}}
 		}
@@ -649,6 +733,8 @@ func runC06(c *ctx) {
 							// resend mode: wherever two instances can differ (CMP: the rounds of c06ForkRounds, in both tiers)
 							if !isCMP || c06ForkRounds(name)[k] {
 								jobs = append(jobs, c06Job{mk(), seed, E, g1, k, last, sh.Bcast, pn, c06Mode{Name: "resend"}, isCMP, sh})
+								// directed mode: per-recipient copies (To filled in) with different payloads (c06_directed.go)
+								jobs = append(jobs, c06Job{mk(), seed, E, g1, k, last, sh.Bcast, pn, c06Mode{Name: "directed"}, isCMP, sh})
 							}
 						}
 						// reencode mode: every round (quick tier, CMP: the rounds that fork mode does not cover); the variant rotates with the case
@@ -657,6 +743,10 @@ func runC06(c *ctx) {
 							nm = len(reencModes)
 						} else if isCMP && forked {
 							nm = 0
+						}
+						// directed-same: per-recipient copies with identical payloads, every round (one schedule per partition in the quick tier)
+						if c.thorough() || pi == 0 {
+							jobs = append(jobs, c06Job{mk(), seed, E, g1, k, last, sh.Bcast, pn, c06Mode{Name: "directed-same"}, isCMP, sh})
 						}
 						for v := 0; v < nm; v++ {
 							jobs = append(jobs, c06Job{mk(), seed, E, g1, k, last, sh.Bcast, pn, reencModes[(ei+mask+k+pi+v)%len(reencModes)], isCMP, sh})
